@@ -50,7 +50,15 @@ def pipeline(ctx):
     summ = vlib.agv_ok(ctx, ["drive", "rules", "--universe", uni, "--vectors", vec, "--out", rec], timeout=3600)
     n, fails = vlib.validate_trace_sharded(ctx, "trace/Trace_Rules.tla", "trace/Trace_Rules.cfg", rec, shards=8,
                                            timeout=5400, extra_env={"UNIVERSE": uni})
-    res = {"n": n, "fails": fails, "summ": summ, "usum": usum, "vectors": len(r.vec),
+    # many rules scanned together (C01): the design (Combined.tla, with the variant it must reject) and the records
+    vlib.model_check(ctx, "mc/MC_Combined.tla", "mc/MC_Combined.cfg", workers=8, timeout=1800, heap="6g")
+    wit = vlib.run_tlc(ctx, "mc/MC_Combined.tla", "mc/MC_Combined_witness.cfg", workers=4, timeout=900, keep_vec=False)
+    if wit.violated != "SameAsAlone":
+        raise vlib.ToolError("MC_Combined_witness: 'one fix per node' no longer violates SameAsAlone - the model lost its teeth")
+    n_sets, set_fails = vlib.validate_trace(ctx, "trace/Trace_Sets.tla", "trace/Trace_Sets.cfg", rec + ".sets", timeout=3000)
+    if n_sets < 20:
+        raise vlib.ToolError("only %d rule sets were scanned together" % n_sets)
+    res = {"n": n, "fails": fails, "summ": summ, "usum": usum, "vectors": len(r.vec), "n_sets": n_sets, "set_fails": set_fails,
            "tlc_runs": ctx.cov["tlc_runs"], "states": ctx.cov["states"], "transitions": ctx.cov["transitions"],
            "drift": ctx.cov["drift"]}
     try:
@@ -58,6 +66,7 @@ def pipeline(ctx):
         os.makedirs(cdir)
         shutil.copy(uni, os.path.join(cdir, "universe.json"))
         shutil.copy(rec, os.path.join(cdir, "records.ndjson"))
+        shutil.copy(rec + ".sets", os.path.join(cdir, "records.ndjson.sets"))
         json.dump(res, open(os.path.join(cdir, "done.json"), "w"))
     except OSError:
         pass
@@ -92,6 +101,14 @@ def run(ctx, prop, extra=None):
             if vlib.report_failure(ctx, facts, {"record": slim, "reason": reason, "seed": ctx.seed, "tier": ctx.tier},
                                    "rule %s on %r: %s" % (json.dumps(case["yaml"])[:200], case["src"][:60], reason[1])):
                 bad.add(f["index"])
+    if prop == "C01":
+        for f in res.get("set_fails", []):
+            case = vlib.nth_line(recs_path + ".sets", f["index"])
+            for reason in f["reasons"]:
+                vlib.report_failure(ctx, {"reason": reason[1], "lang": case["lang"]},
+                                    {"record": case, "reason": reason, "seed": ctx.seed, "tier": ctx.tier},
+                                    "rule set %s on %r: %s" % (case["id"], case["src"][:60], reason[1]))
+        ctx.cov["rule_sets_scanned_together"] = res.get("n_sets", 0)
     # coverage numbers for this property
     ops = {}
     shapes = set()
